@@ -44,7 +44,7 @@ def showEv : Ev → String
 
 def showState : CState → String
   | .init => "init" | .headersReceived => "headersReceived" | .headersProcessed => "headersProcessed"
-  | .bodyReceiving => "bodyReceiving" | .bodyReceived => "bodyReceived"
+  | .continueSending => "continueSending" | .bodyReceiving => "bodyReceiving" | .bodyReceived => "bodyReceived"
   | .footersReceiving => "footersReceiving" | .footersReceived => "footersReceived"
   | .fullReqReceived => "fullReqReceived" | .startReply => "startReply"
   | .fullReplySent => "fullReplySent" | .closed => "closed" | .outOfDomain => "out-of-domain"
